@@ -90,6 +90,17 @@ def main():
     else:
         refuse(NAME, "GetOptsOptions::apply_to: the application of the --config pairs has neither of the two shapes understood "
                      "(plain loop over inline_config / max_width first, then the loop without it)")
+    # `PartialConfig::to_toml`: the options blanked before serialisation
+    mm = re.search(r"pub\s+fn\s+to_toml\s*\(", mod)
+    if not mm:
+        refuse(NAME, "PartialConfig::to_toml not found in src/config/mod.rs")
+    toml_body, _ = block_after(mod, mm.start())
+    hidden = re.findall(r"cloned\.(\w+)\s*=\s*None\s*;", toml_body)
+    if not hidden or "::toml::to_string(&cloned)" not in "".join(toml_body.split()):
+        refuse(NAME, "PartialConfig::to_toml: shape not understood (expected `cloned.<opt> = None;` lines, then ::toml::to_string(&cloned))")
+    optnames = {n for (n, _, _) in opts}
+    if not set(hidden) <= optnames:
+        refuse(NAME, f"to_toml blanks names that are not options: {sorted(set(hidden) - optnames)}")
     names = ["configSetter", "cliConfigSetter", "overrideValue"]
     # was_set marking: which of the three paths mark `.1 = true`
     L = ["/- GENERATED by translate/c14_options.py from src/config/{mod,options,config_type}.rs and src/bin/main.rs.  Do not edit. -/",
@@ -103,6 +114,8 @@ def main():
         L.append(f"/-- key dispatch after a value is stored through `{nm}`: (keys, method called) -/")
         L.append(f"def {nm}Dispatch : List (List String × String) := [" + ", ".join(
             "([" + ", ".join(q(k) for k in ks) + f"], {q(meth)})" for ks, meth in arms) + "]\n")
+    L.append("/-- options that `PartialConfig::to_toml` (src/config/mod.rs) blanks before printing -/")
+    L.append("def tomlHidden : List String := [" + ", ".join(q(h) for h in hidden) + "]\n")
     L.append("/-- bin/main.rs `apply_to`: the `--config max_width=…` pair is applied before the other pairs -/")
     L.append(f"def inlineMaxWidthFirst : Bool := {'true' if mw_first else 'false'}\n")
     L.append("end RF.Gen.Options\n")
